@@ -75,7 +75,9 @@ def expm_krylov(Afunc, dt, vstart: xp.ndarray, block_size=50):
 
         if 3 < j and j % 2 == 0:
             new_res = _expm_krylov(alpha[:j+1], beta[:j], V[:j+1].T, nrmv, dt)
-            if res is not None and xp.allclose(res, new_res):
+            # compare the iterates for the normalised start vector: the absolute tolerance of
+            # `allclose` would otherwise stop the iteration prematurely for a start vector of small norm
+            if res is not None and xp.allclose(res / nrmv, new_res / nrmv):
                 return new_res, j+1
             else:
                 res = new_res
